@@ -20,6 +20,8 @@ def time(s=""):
 
 
 time()
+import copy
+
 import astroid
 
 from . import types
@@ -132,6 +134,9 @@ def compile_code(
         options = CompileOptions(**options)
     if options is None:
         options = CompileOptions()
+    else:
+        # pragmas in the source must not modify the caller's options object
+        options = copy.copy(options)
 
     main_module = src[""] if isinstance(src, dict) else src
     if "pytrapic:" in main_module:
